@@ -139,9 +139,30 @@ class FakeStorage:
         return self
 
 
-def coded(shape, dtype=torch.int64):
+LAYOUTS = ("contiguous", "fortran", "strided")
+
+
+def relayout(t, layout):
+    """same logical tensor, different memory layout: Fortran-ordered (permuted view of a contiguous tensor) or a
+    strided slice of a larger buffer"""
+    if layout == "contiguous":
+        return t
+    if layout == "fortran":
+        rev = tuple(reversed(range(t.ndim)))
+        return t.permute(*rev).contiguous().permute(*rev)
+    if layout == "strided":
+        big = torch.zeros(t.shape[:-1] + (2 * t.shape[-1],), dtype=t.dtype)
+        big[..., ::2] = t
+        return big[..., ::2]
+    raise KeyError(layout)
+
+
+def coded(shape, dtype=torch.int64, layout="contiguous"):
     n = int(np.prod(shape))
-    return torch.arange(n, dtype=dtype).reshape(shape)
+    t = relayout(torch.arange(n, dtype=dtype).reshape(shape), layout)
+    if layout != "contiguous" and t.ndim > 1 and t.is_contiguous() and n > max(shape):
+        raise TraceError("non-contiguous test layout came out contiguous")
+    return t
 
 
 def tok_expr(tok):
@@ -187,17 +208,17 @@ def emit(s):
 # =================================================================================================
 # A. MetaImage writer
 # =================================================================================================
-def trace_meta_write(D, C, size, dtype="int16", compress=False, with_channel_dim=True):
+def trace_meta_write(D, C, size, dtype="int16", compress=False, with_channel_dim=True, layout="contiguous"):
     """run write_meta_image, then the real meta_image_bytes on the captured (position-coded) array"""
     shape = ((C,) if with_channel_dim else ()) + tuple(reversed(size))
-    data = coded(shape)
+    data = coded(shape, layout=layout)
     grid = FakeGrid(D, size)
     cap = {}
     real_mib = M.meta_image_bytes
     real_so = M.StorageObject
 
     def capture(arr, meta):
-        cap["arr"], cap["meta"] = np.array(arr), dict(meta)
+        cap["arr"], cap["meta"] = arr, dict(meta)      # the very array object (its memory layout matters to tobytes)
         return b""
     M.meta_image_bytes, M.StorageObject = capture, FakeStorage
     try:
@@ -263,15 +284,16 @@ def gen_meta_writer():
         except Exception as e:  # noqa
             rows.append(f"({NPTY[dt]}, None)")
     emit("Definition gen_meta_w_type : list (npty * option string) :=\n  " + coq_list(rows) + ".")
-    # payload order samples (position-coded data), D x C x compress
+    # payload order samples (position-coded data), D x C x compress x memory layout of the input tensor
     rows = []
     for D in (2, 3):
         for C in (1, 2, 3):
             for comp in (False, True):
-                hdr, payload, shp = trace_meta_write(D, C, SMALL[:D], compress=comp)
-                if (hdr.get("CompressedData") == "True") != comp:
-                    raise TraceError("CompressedData header does not follow the compress argument")
-                rows.append(f"(({D}%nat, {C}%nat, {nat_list(SMALL[:D])}), {nat_list(payload)})")
+                for layout in LAYOUTS:
+                    hdr, payload, shp = trace_meta_write(D, C, SMALL[:D], compress=comp, layout=layout)
+                    if (hdr.get("CompressedData") == "True") != comp:
+                        raise TraceError("CompressedData header does not follow the compress argument")
+                    rows.append(f"(({D}%nat, {C}%nat, {nat_list(SMALL[:D])}), {nat_list(payload)})")
     emit("Definition gen_meta_w_payload_samples : list ((nat * nat * list nat) * list nat) :=\n  " + coq_list(rows) + ".")
     # data without channel dimension (write_image accepts data.ndim == grid.ndim)
     try:
@@ -496,9 +518,9 @@ class NpProxy:
     used = False
 
 
-def trace_nifti_write(D, C, size, with_channel_dim=True):
+def trace_nifti_write(D, C, size, with_channel_dim=True, layout="contiguous"):
     shape = ((C,) if with_channel_dim else ()) + tuple(reversed(size))
-    data = coded(shape)
+    data = coded(shape, layout=layout)
     grid = FakeGrid(D, size)
     real = (NI.nib, NI.StorageObject, NI.unlink_or_mkdir)
     NI.nib, NI.StorageObject, NI.unlink_or_mkdir = FakeNib, FakeStorage, (lambda p: p)
@@ -557,8 +579,9 @@ def gen_nifti():
     rows = []
     for D in (2, 3):
         for C in (1, 2, 3):
+          for layout in LAYOUTS:
             try:
-                img = trace_nifti_write(D, C, SMALL[:D])
+                img = trace_nifti_write(D, C, SMALL[:D], layout=layout)
                 a = np.asarray(img.dataobj)
                 # on-disk order of a NIfTI array (first index fastest) = C order of the transposed array
                 rows.append(f"(({D}%nat, {C}%nat, {nat_list(SMALL[:D])}), Some ({nat_list(a.shape)}, {nat_list(a.transpose().reshape(-1).tolist())}))")
@@ -748,9 +771,10 @@ def gen_sitk():
     for D in (2, 3):
         for C in (1, 2, 3):
             sz = SMALL[:D]
-            im = ST.image_from_tensor(coded((C,) + tuple(reversed(sz))))
-            a = sitk.GetArrayFromImage(im)
-            rows_w.append(f"(({D}%nat, {C}%nat, {nat_list(sz)}), ({nat_list(im.GetSize())}, {im.GetNumberOfComponentsPerPixel()}%nat, {nat_list(a.reshape(-1).tolist())}))")
+            for layout in LAYOUTS:
+                im = ST.image_from_tensor(coded((C,) + tuple(reversed(sz)), layout=layout))
+                a = sitk.GetArrayFromImage(im)
+                rows_w.append(f"(({D}%nat, {C}%nat, {nat_list(sz)}), ({nat_list(im.GetSize())}, {im.GetNumberOfComponentsPerPixel()}%nat, {nat_list(a.reshape(-1).tolist())}))")
             n = int(np.prod(sz)) * C
             b = np.arange(n).reshape(tuple(reversed(sz)) + ((C,) if C > 1 else ()))
             im2 = sitk.GetImageFromArray(b, isVector=C > 1)
@@ -827,6 +851,46 @@ def gen_flow():
     up = {"grid": "GRID", "cube": "CUBE", "cube_corners": "CUBE_CORNERS", "world": "WORLD"}
     if w_axes not in up or r_axes not in up:
         raise TraceError(f"default axes of FlowField.write/read not recognised: {w_axes}, {r_axes}")
+    # align_corners pass-through: the flag requested from FlowField.read / Image.read / Grid.from_reader (from_file) is the
+    # flag of the returned grid (it decides what Axes.from_grid means for the vectors read back)
+    import deepali.data.image as DI
+    from deepali.core.grid import Grid as RealGrid
+    rows = []
+    for ac in (True, False):
+        seen = {}
+        real_read, real_from = DF.Image.read, DF.FlowField.from_image
+        DF.Image.read = classmethod(lambda cls, path, **kw: seen.update(kw) or "img")
+        DF.FlowField.from_image = classmethod(lambda cls, image, axes=None: None)
+        try:
+            DF.FlowField.read("x.mha", align_corners=ac)
+        finally:
+            DF.Image.read, DF.FlowField.from_image = real_read, real_from
+        got = seen.get("align_corners", None)
+        rows.append(("FlowField.read", ac, got))
+        real_ri = DI.read_image
+        DI.read_image = lambda path: (torch.zeros(1, 2, 3), RealGrid(size=(3, 2), align_corners=not ac))
+        try:
+            im = DI.Image.read("x.mha", align_corners=ac)
+            got = bool(im.grid().align_corners())
+        except Exception:  # noqa
+            got = None
+        finally:
+            DI.read_image = real_ri
+        rows.append(("Image.read", ac, got))
+
+        class Reader:
+            def GetSize(self): return (3, 2)
+            def GetOrigin(self): return (0.0, 0.0)
+            def GetSpacing(self): return (1.0, 1.0)
+            def GetDirection(self): return (1.0, 0.0, 0.0, 1.0)
+        try:
+            got = bool(RealGrid.from_reader(Reader(), align_corners=ac).align_corners())
+        except Exception:  # noqa
+            got = None
+        rows.append(("Grid.from_reader", ac, got))
+    cb = lambda b: "true" if b else "false"
+    emit("Definition gen_align_corners_passthrough : list (string * bool * option bool) :=\n  " +
+         coq_list([f"(\"{n}\"%string, {cb(a)}, {'None' if g is None else 'Some ' + cb(bool(g))})" for n, a, g in rows]) + ".")
     emit(f"Definition gen_flow_write_axes : axes := {up[w_axes]}.")
     emit(f"Definition gen_flow_read_axes : axes := {up[r_axes]}.")
 
